@@ -105,6 +105,16 @@ func genNetPlan(r *Rand, tier string, focus string, faults bool) NetPlan {
 			}
 			continue
 		}
+		if focus == "C09" && r.Chance(0.12) {
+			// a tag on an older commit of a branch, fetched together with the branch at a depth limit
+			b := Pick(r, netBranches)
+			p.Ops = append(p.Ops, NetOp{Node: "R", Op: "commit", Branch: b, Variant: r.Intn(6)}, NetOp{Node: "R", Op: "rtag", Branch: b, Other: Pick(r, []string{"v1", "v2"})})
+			for k := r.Range(1, 3); k > 0; k-- {
+				p.Ops = append(p.Ops, NetOp{Node: "R", Op: "commit", Branch: b, Variant: r.Intn(6)})
+			}
+			p.Ops = append(p.Ops, NetOp{Node: Pick(r, []string{"L", "L2"}), Op: "fetch", Depth: r.Range(1, 2), Specs: []NetSpec{{Branch: b, Plus: true}, {Tags: true}}})
+			continue
+		}
 		node := Pick(r, []string{"L", "L", "L", "L2", "R"})
 		b := Pick(r, netBranches)
 		skew := 0
